@@ -26,6 +26,8 @@ TOKEN_MUST_REJECT = {
     "key-commented-out": "signed by a key that is commented out in authorized_keys",
     "key-weak-rsa+iss-alice": "signed by a weak key", "key-no-comment+iss-alice": "signed by a key without user name",
     "key-commented-out+iss-alice": "signed by a commented-out key",
+    "key-weak-rsa+iss-empty": "signed by a weak key", "key-no-comment+iss-empty": "signed by a key without user name (empty issuer)",
+    "key-commented-out+iss-empty": "signed by a commented-out key",
     "tampered": "protected bytes altered", "zero-sig": "no signature", "other-party": "issuer is not the key owner's name",
 }
 
